@@ -1,9 +1,439 @@
-// C11: not built yet (stub so that main.rs is already wired; replace the body, keep the two signatures).
-use crate::util::Sink;
+// C11: results do not depend on bank order; reproducible across threads and processes.
+//   evt10 ...   (format of c10.rs) permuted bank lists through implementation AND model
+//   rel11 <flags> <nperm> <seed> <run> <namehex>:<datahex>*
+//               implementation-only relation: every adjacent transposition, the reversal and <nperm>
+//               random permutations succeed/fail alike and, on success, give the same timestamp,
+//               signal arrays, avalanches() and vertex() bit for bit; flag `t`: also in a spawned
+//               thread; flag `p`: also in a fresh child process (this binary, `obs` mode).
+//   full11 <run> <namehex>:<datahex>*    (used by the child process) prints the full observation
+// The thread/process part is runtime behaviour that no Gallina model exhibits: it is exercised here,
+// not proved (see coq/Props/C11.v).
+use crate::c10::*;
+use crate::util::*;
+use alpha_g_detector::alpha16::aw_map::TpcWirePosition;
+use alpha_g_detector::alpha16::{self, Adc32ChannelId};
+use alpha_g_detector::padwing::map::TpcPadPosition;
+use alpha_g_detector::padwing::{self, AfterId, PadChannelId};
+use std::collections::HashMap;
+use std::io::Write;
 
-pub fn run(_tier: &str, _seed: u64, _s: &mut Sink) {}
+/// outcome + timestamp + every occupied slot + avalanches() + vertex(), floats as bit patterns
+pub fn full_obs(run: u32, banks: &[Bank]) -> String {
+    match build_real(run, banks) {
+        None => "panic".into(),
+        Some(Err(_)) => "err".into(),
+        Some(Ok(ev)) => {
+            let mut s = event_obs(&ev);
+            let e2 = ev.clone();
+            match catch(move || e2.avalanches()) {
+                None => s.push_str(" | av panic"),
+                Some(av) => {
+                    s.push_str(&format!(" | av {}", av.len()));
+                    for a in av {
+                        s.push_str(&format!(
+                            " {:016x}.{:016x}.{:016x}.{:016x}.{:016x}",
+                            a.t.value.to_bits(),
+                            a.phi.value.to_bits(),
+                            a.z.value.to_bits(),
+                            a.wire_amplitude.to_bits(),
+                            a.pad_amplitude.to_bits()
+                        ));
+                    }
+                }
+            }
+            match catch(move || ev.vertex()) {
+                None => s.push_str(" | vx panic"),
+                Some(None) => s.push_str(" | vx none"),
+                Some(Some(c)) => s.push_str(&format!(
+                    " | vx {:016x}.{:016x}.{:016x}",
+                    c.x.value.to_bits(),
+                    c.y.value.to_bits(),
+                    c.z.value.to_bits()
+                )),
+            }
+            s
+        }
+    }
+}
+fn class(o: &str) -> &str {
+    o.split(' ').next().unwrap_or("")
+}
 
-/// implementation observation for a case line of this module (None: not one of mine)
-pub fn observe_line(_line: &str) -> Option<String> {
-    None
+pub fn permutation(r: &mut Rng, n: usize) -> Vec<usize> {
+    let mut p: Vec<usize> = (0..n).collect();
+    for i in (1..n).rev() {
+        let j = r.below(i as u64 + 1) as usize;
+        p.swap(i, j);
+    }
+    p
+}
+fn apply(p: &[usize], banks: &[Bank]) -> Vec<Bank> {
+    p.iter().map(|&i| banks[i].clone()).collect()
+}
+
+fn child_obs(run: u32, banks: &[Bank]) -> Result<String, String> {
+    let exe = std::env::current_exe().map_err(|e| e.to_string())?;
+    let mut ch = std::process::Command::new(exe)
+        .arg("obs")
+        .stdin(std::process::Stdio::piped())
+        .stdout(std::process::Stdio::piped())
+        .spawn()
+        .map_err(|e| e.to_string())?;
+    {
+        let mut si = ch.stdin.take().ok_or("no stdin")?;
+        writeln!(si, "full11 {}", raw_str(run, banks)).map_err(|e| e.to_string())?;
+    }
+    let out = ch.wait_with_output().map_err(|e| e.to_string())?;
+    Ok(String::from_utf8_lossy(&out.stdout).trim_end().to_string())
+}
+
+/// the pairwise relation of C11 on the implementation
+pub fn relation(flags: &str, nperm: usize, seed: u64, run: u32, banks: &[Bank]) -> String {
+    let reference = full_obs(run, banks);
+    let n = banks.len();
+    let check = |what: &str, o: &str| -> Option<String> {
+        if class(o) != class(&reference) {
+            return Some(format!("fails {} outcome {} vs {}", what, class(o), class(&reference)));
+        }
+        if class(o) == "ok" && o != reference {
+            return Some(format!("fails {} results differ", what));
+        }
+        if class(o) == "panic" {
+            return Some(format!("fails {} panic", what));
+        }
+        None
+    };
+    // same input again in this thread
+    if let Some(f) = check("repeat", &full_obs(run, banks)) {
+        return f;
+    }
+    for i in 0..n.saturating_sub(1) {
+        let mut b = banks.to_vec();
+        b.swap(i, i + 1);
+        if let Some(f) = check(&format!("transposition-{}", i), &full_obs(run, &b)) {
+            return f;
+        }
+    }
+    let mut rev = banks.to_vec();
+    rev.reverse();
+    if let Some(f) = check("reversal", &full_obs(run, &rev)) {
+        return f;
+    }
+    let mut r = Rng::new(seed);
+    for k in 0..nperm {
+        let p = permutation(&mut r, n);
+        if let Some(f) = check(&format!("permutation-{}", k), &full_obs(run, &apply(&p, banks))) {
+            return f;
+        }
+    }
+    if flags.contains('t') {
+        let b = banks.to_vec();
+        // MainEvent is ~0.5 MB by value; the vertices binary gives its workers 4 MiB stacks, std's
+        // default of 2 MiB is not enough for this harness' extra copies
+        let h = std::thread::Builder::new().stack_size(32 << 20).spawn(move || full_obs(run, &b)).unwrap();
+        match h.join() {
+            Ok(o) => {
+                if o != reference {
+                    return "fails thread results differ".into();
+                }
+            }
+            Err(_) => return "fails thread panicked".into(),
+        }
+    }
+    if flags.contains('p') {
+        match child_obs(run, banks) {
+            Ok(o) => {
+                if o != reference {
+                    return "fails process results differ".into();
+                }
+            }
+            Err(e) => return format!("fails process {}", e),
+        }
+    }
+    "holds".into()
+}
+
+pub fn observe_line(line: &str) -> Option<String> {
+    let toks: Vec<&str> = line.split(' ').collect();
+    match toks.first() {
+        Some(&"full11") => {
+            let (run, banks) = parse_raw(&toks[1..])?;
+            Some(full_obs(run, &banks))
+        }
+        Some(&"rel11") => {
+            let flags = toks.get(1)?;
+            let nperm = toks.get(2)?.parse::<usize>().ok()?;
+            let seed = toks.get(3)?.parse::<u64>().ok()?;
+            let (run, banks) = parse_raw(&toks[4..])?;
+            Some(relation(flags, nperm, seed, run, &banks))
+        }
+        _ => None,
+    }
+}
+
+// ---------------------------------------------------------------------------------------------
+// simulated-like events: a few tracks of response-shaped wire and pad pulses over noise
+// ---------------------------------------------------------------------------------------------
+pub struct Geometry {
+    /// wire index -> (a16 board index, channel)
+    pub wire: HashMap<usize, (usize, u8)>,
+    /// (column, row) -> (pwb board index, chip, readout index)
+    pub pad: HashMap<(usize, usize), (usize, u8, u16)>,
+}
+pub fn geometry(w: &World, run: u32) -> Geometry {
+    let mut wire = HashMap::new();
+    for (bi, b) in w.a16.iter().enumerate() {
+        let id = alpha16::BoardId::try_from(&b.name[..]).unwrap();
+        for c in 0..32u8 {
+            if let Ok(p) = TpcWirePosition::try_new(run, id, Adc32ChannelId::try_from(c).unwrap()) {
+                wire.insert(usize::from(p), (bi, c));
+            }
+        }
+    }
+    // readout index of each pad channel
+    let mut readout = HashMap::new();
+    for ro in 1..=79u16 {
+        if let Ok(padwing::ChannelId::Pad(pc)) = padwing::ChannelId::try_from(ro) {
+            readout.insert((1..=72u16).find(|&i| PadChannelId::try_from(i).unwrap() == pc).unwrap(), ro);
+        }
+    }
+    let mut pad = HashMap::new();
+    for (bi, b) in w.pwb.iter().enumerate() {
+        let id = padwing::BoardId::try_from(&b.name[..]).unwrap();
+        for (ci, chip) in [AfterId::A, AfterId::B, AfterId::C, AfterId::D].into_iter().enumerate() {
+            for pc in 1..=72u16 {
+                if let Ok(p) = TpcPadPosition::try_new(run, id, chip, PadChannelId::try_from(pc).unwrap()) {
+                    pad.insert((usize::from(p.column), usize::from(p.row)), (bi, ci as u8, readout[&pc]));
+                }
+            }
+        }
+    }
+    Geometry { wire, pad }
+}
+
+fn add_pulse(sig: &mut [f64], t0: usize, amp: f64, resp: &[f64]) {
+    for (k, v) in resp.iter().enumerate() {
+        if t0 + k < sig.len() {
+            sig[t0 + k] += amp * v;
+        }
+    }
+}
+
+/// tracks of hits: consecutive wires with growing drift time, pad rows moving along z
+pub fn sim_event(w: &World, g: &Geometry, r: &mut Rng, run: u32, ntracks: usize, noise: i64) -> Ev {
+    let wresp = alpha_g_physics::verif::wire_response();
+    let presp = alpha_g_physics::verif::pad_response();
+    let wmax = wresp.iter().fold(0f64, |a, b| a.max(b.abs())).max(1e-9);
+    let pmax = presp.iter().fold(0f64, |a, b| a.max(b.abs())).max(1e-9);
+    let nw = 400usize; // ADC samples
+    let np = 400usize; // PWB samples
+    let mut wires: HashMap<usize, Vec<f64>> = HashMap::new();
+    let mut pads: HashMap<(usize, usize), Vec<f64>> = HashMap::new();
+    let radial = ntracks >= 10; // 10 + n: n straight tracks from one point on the axis
+    let ntracks = if radial { ntracks - 10 } else { ntracks };
+    let tables = alpha_g_physics::verif::drift_tables();
+    let zv = (r.below(1600) as f64 - 800.0) / 1000.0;
+    for _ in 0..ntracks {
+        if radial {
+            let phi0 = r.below(6283) as f64 / 1000.0;
+            let slope = (r.below(2000) as f64 - 1000.0) / 1000.0;
+            let amp = r.range(900, 2500) as f64;
+            for k in 0..22 {
+                let rad = 0.181 - 0.0032 * k as f64;
+                let z = zv + slope * rad;
+                if z.abs() > 1.14 {
+                    continue;
+                }
+                let Some((table, _)) = tables.iter().find(|(_, zu)| *zu >= z.abs()) else { continue };
+                let Some(&(t, _, corr)) = table
+                    .iter()
+                    .min_by(|a, b| (a.1 - rad).abs().partial_cmp(&(b.1 - rad).abs()).unwrap())
+                else {
+                    continue;
+                };
+                let phi = (phi0 + corr).rem_euclid(2.0 * std::f64::consts::PI);
+                let shifted = (phi / (2.0 * std::f64::consts::PI / 256.0)).floor() as usize % 256;
+                let wi = (shifted + 8) & 0xff;
+                let bin = 3 + (t / 16e-9).round() as usize;
+                let row = (((z + 1.152) / 0.004).floor() as i64).clamp(0, 575);
+                if wires.get(&wi).is_none() {
+                    wires.insert(wi, vec![0.0; nw]);
+                }
+                add_pulse(wires.get_mut(&wi).unwrap(), bin, amp / wmax, &wresp);
+                let col = alpha_g_physics::verif::wire_to_pad_column(wi);
+                for (dr, f) in [(-1i64, 0.35), (0, 1.0), (1, 0.45)] {
+                    let rr = row + dr;
+                    if (0..576).contains(&rr) {
+                        let key = (col, rr as usize);
+                        if pads.get(&key).is_none() {
+                            pads.insert(key, vec![0.0; np]);
+                        }
+                        add_pulse(pads.get_mut(&key).unwrap(), bin.saturating_sub(1), 0.6 * f * amp / pmax, &presp);
+                    }
+                }
+            }
+            continue;
+        }
+        let w0 = r.below(256) as usize;
+        let len = r.range(14, 26) as usize;
+        let dir: i64 = if r.chance(1, 2) { 1 } else { -1 };
+        let row0 = r.range(100, 470) as i64;
+        let drow = r.range(0, 4) as i64 - 2;
+        let dt = r.range(2, 9) as usize;
+        let amp = r.range(600, 2500) as f64;
+        for j in 0..len {
+            let wi = ((w0 as i64 + dir * j as i64).rem_euclid(256)) as usize;
+            let t = 5 + dt * j;
+            if wires.get(&wi).is_none() {
+                wires.insert(wi, vec![0.0; nw]);
+            }
+            // raw sample index = delay + bin; pulses are added in calibrated time, shifted below
+            add_pulse(wires.get_mut(&wi).unwrap(), t, amp / wmax, &wresp);
+            let col = alpha_g_physics::verif::wire_to_pad_column(wi);
+            let row = row0 + drow * j as i64;
+            for (dr, f) in [(-1i64, 0.35), (0, 1.0), (1, 0.45)] {
+                let rr = row + dr;
+                if (0..576).contains(&rr) {
+                    let key = (col, rr as usize);
+                    if pads.get(&key).is_none() {
+                        pads.insert(key, vec![0.0; np]);
+                    }
+                    add_pulse(pads.get_mut(&key).unwrap(), t.saturating_sub(1), 0.6 * f * amp / pmax, &presp);
+                }
+            }
+        }
+    }
+    let mut banks = Vec::new();
+    let mut kinds = Vec::new();
+    let mut keys: Vec<usize> = wires.keys().copied().collect();
+    keys.sort();
+    for wi in keys {
+        let Some(&(bi, c)) = g.wire.get(&wi) else { continue };
+        let Ok((bl, gain, delay)) = alpha_g_physics::verif::wire_calibration(run, wi) else { continue };
+        let sig = &wires[&wi];
+        let n = delay + sig.len();
+        let raw: Vec<i16> = (0..n)
+            .map(|i| {
+                let s = if i >= delay { sig[i - delay] / gain } else { 0.0 };
+                let nz = r.below(2 * noise as u64 + 1) as i64 - noise;
+                (bl as f64 + s).round().clamp(-32000.0, 32000.0) as i16 + nz as i16
+            })
+            .collect();
+        banks.push(Bank { name: wire_name(&w.a16[bi].name, c), data: adc_long(w.a16[bi].mac, 128 + c, &raw, None, None) });
+        kinds.push(Kind::Wire { board: bi, chan: c, short: false });
+    }
+    // pads grouped by (board, chip)
+    let mut groups: HashMap<(usize, u8), Vec<(u16, Vec<i16>)>> = HashMap::new();
+    let mut nsamp = 0usize;
+    let mut pkeys: Vec<(usize, usize)> = pads.keys().copied().collect();
+    pkeys.sort();
+    for key in pkeys {
+        let Some(&(bi, chip, ro)) = g.pad.get(&key) else { continue };
+        let Ok((bl, gain, delay)) = alpha_g_physics::verif::pad_calibration(run, key.0, key.1) else { continue };
+        let sig = &pads[&key];
+        nsamp = (delay + sig.len()).min(511);
+        let raw: Vec<i16> = (0..nsamp)
+            .map(|i| {
+                let s = if i >= delay { sig[i - delay] / gain } else { 0.0 };
+                let nz = r.below(2 * noise as u64 + 1) as i64 - noise;
+                (bl as f64 + s).round().clamp(-2040.0, 2040.0) as i16 + nz as i16
+            })
+            .collect();
+        groups.entry((bi, chip)).or_default().push((ro, raw));
+    }
+    let mut gk: Vec<(usize, u8)> = groups.keys().copied().collect();
+    gk.sort();
+    for (bi, chip) in gk {
+        let mut chans = groups[&(bi, chip)].clone();
+        chans.sort_by_key(|c| c.0);
+        let payload = pwb_payload(w.pwb[bi].mac, b'A' + chip, nsamp as u16, &chans);
+        let k = r.range(1, 3) as usize;
+        for d in split_chunks(w.pwb[bi].dev, chip, &payload, k) {
+            banks.push(Bank { name: format!("PC{}", w.pwb[bi].name), data: d });
+            kinds.push(Kind::Pad { board: bi, chip });
+        }
+    }
+    banks.push(trg_bank(r));
+    kinds.push(Kind::Trg);
+    // bank order as shuffled as a MIDAS event may deliver it
+    for i in (1..banks.len()).rev() {
+        let j = r.below(i as u64 + 1) as usize;
+        banks.swap(i, j);
+        kinds.swap(i, j);
+    }
+    Ev { run, banks, kinds }
+}
+
+fn emit_rel(s: &mut Sink, label: &str, flags: &str, nperm: usize, seed: u64, run: u32, banks: &[Bank]) {
+    let line = format!("rel11 {} {} {} {}", flags, nperm, seed, raw_str(run, banks));
+    let obs = relation(flags, nperm, seed, run, banks);
+    s.put(&line, &obs, label, banks.len() > 1);
+}
+
+/// the event itself, its reversal, random permutations and (small lists) every adjacent transposition
+/// through implementation and model; then the implementation-only relation
+fn emit_all(s: &mut Sink, r: &mut Rng, label: &str, flags: &str, nperm: usize, nmodel: usize, run: u32, banks: &[Bank]) {
+    emit(s, "evt10", &format!("{}/as-generated", label), run, banks);
+    let mut rev = banks.to_vec();
+    rev.reverse();
+    emit(s, "evt10", &format!("{}/reversed", label), run, &rev);
+    for _ in 0..nmodel {
+        let p = permutation(r, banks.len());
+        emit(s, "evt10", &format!("{}/random-permutation", label), run, &apply(&p, banks));
+    }
+    if banks.len() <= 6 {
+        for i in 0..banks.len().saturating_sub(1) {
+            let mut b = banks.to_vec();
+            b.swap(i, i + 1);
+            emit(s, "evt10", &format!("{}/adjacent-transposition", label), run, &b);
+        }
+    }
+    emit_rel(s, &format!("{}/relation", label), flags, nperm, r.next(), run, banks);
+}
+
+pub fn run(tier: &str, seed: u64, s: &mut Sink) {
+    let w = world();
+    let mut r = Rng::new(seed ^ 0xC11);
+    let thorough = tier == "thorough";
+    let flags = if thorough { "tp" } else { "t" };
+    let nperm = if thorough { 50 } else { 6 };
+    let nmodel = if thorough { 4 } else { 1 };
+    // 1. simulated-like multi-track events with noise
+    let g_sim = geometry(&w, u32::MAX);
+    let g_real = geometry(&w, 11192);
+    let n_sim = if thorough { 60 } else { 6 };
+    for i in 0..n_sim {
+        let (run, g) = if i % 3 == 2 { (11192u32, &g_real) } else { (u32::MAX, &g_sim) };
+        let nt = if i % 2 == 0 { 12 + (i % 3) } else { 1 + (i % 3) };
+        let ev = sim_event(&w, g, &mut r, run, nt, 3);
+        // long lists: transpositions are sampled by the relation's nperm only through the driver's budget
+        emit_all(s, &mut r, "simulated-tracks-with-noise", if i == 0 { "tp" } else { flags }, if thorough { 20 } else { 3 }, nmodel, ev.run, &ev.banks);
+    }
+    // 2. consistent events
+    let n_ok = if thorough { 400 } else { 50 };
+    for _ in 0..n_ok {
+        let ev = clean_base(&w, &mut r, None);
+        emit_all(s, &mut r, "consistent-event", flags, nperm, nmodel, ev.run, &ev.banks);
+    }
+    // 3. malformed events: every inconsistency class; only Ok/Err is compared across orders
+    let n_bad = if thorough { 40 } else { 4 };
+    for which in 0..N_PERTURB {
+        let mut done = 0;
+        let mut tries = 0;
+        while done < n_bad && tries < 50 * n_bad {
+            tries += 1;
+            let mut ev = clean_base(&w, &mut r, None);
+            if let Some(label) = perturb(&w, &mut r, &mut ev, which) {
+                emit_all(s, &mut r, label, flags, nperm, nmodel, ev.run, &ev.banks);
+                done += 1;
+            }
+        }
+    }
+    // 4. arbitrary runs (maps / calibration may be missing)
+    let n_any = if thorough { 200 } else { 30 };
+    for i in 0..n_any {
+        let run = pick_run(&mut r);
+        let ev = base_event(&w, &mut r, run, i % 5 == 0);
+        emit_all(s, &mut r, "event-on-arbitrary-run", flags, nperm, nmodel, ev.run, &ev.banks);
+    }
 }
